@@ -305,6 +305,51 @@ func crossSession() {
 	}
 }
 
+// emptyParams: an option given with an empty value counts as unset: the request is accepted and the saved
+// configuration holds the default for that option
+func emptyParams() {
+	reset()
+	withServer(func(s *server) {
+		s.get("/saveconfig?config=plain")
+		for _, k := range []string{"n", "nf", "ef", "trim", "calltree", "dropneg", "rel", "unit", "compact", "intel", "mean", "noinlines", "showcolumns", "g", "sort", "norm"} {
+			name := "empty_" + k
+			code, body := s.get("/saveconfig?config=" + name + "&" + k + "=")
+			run.Count("empty|" + k)
+			if code != 200 {
+				run.Violate("roundtrip", "empty-param-rejected:"+k, fmt.Sprintf("saving with %s= (empty): %d %s", k, code, body), k, nil)
+				continue
+			}
+			st, _ := readFile()
+			var plain, got map[string]interface{}
+			for _, c := range st.Configs {
+				if c["name"] == "plain" {
+					plain = c
+				}
+				if c["name"] == name {
+					got = c
+				}
+			}
+			if plain == nil || got == nil {
+				run.Violate("roundtrip", "empty-param-not-saved:"+k, "configuration missing from the file", k, nil)
+				continue
+			}
+			for f, v := range plain {
+				if f == "name" {
+					continue
+				}
+				if fmt.Sprint(got[f]) != fmt.Sprint(v) {
+					run.Violate("roundtrip", "empty-param-not-unset:"+k, fmt.Sprintf("saved with %s= (empty): field %s is %v, the default is %v", k, f, got[f], v), k, nil)
+				}
+			}
+			for f := range got {
+				if _, ok := plain[f]; !ok {
+					run.Violate("roundtrip", "empty-param-not-unset:"+k, fmt.Sprintf("saved with %s= (empty): field %s = %v appears, absent by default", k, f, got[f]), k, nil)
+				}
+			}
+		}
+	})
+}
+
 func isDefault(k, v string) bool {
 	d := map[string]string{"trim": "t", "n": "-1", "nf": "0.005", "ef": "0.001", "unit": "minimum", "sort": "flat", "calltree": "f", "dropneg": "f", "rel": "f", "compact": "f",
 		"intel": "f", "mean": "f", "noinlines": "f", "showcolumns": "f", "g": ""}
@@ -418,6 +463,7 @@ func main() {
 	})
 	roundTrips()
 	crossSession()
+	emptyParams()
 	concurrentPairs()
 	run.Finish("sequential histories = every commit order of up to 3 save/delete requests reachable in Settings.tla (rename+lock design), replayed through the real /saveconfig and /deleteconfig handlers and compared with the specification's final settings value; option<->URL: 32 parameter values x 3 combinations saved, read back from the page's config menu and compared; re-save and delete isolation; 4 request pairs forced through read(a) read(b) write(a) write(b) with the verif gate; non-trivial = distinct history / parameter / pair")
 }
